@@ -108,6 +108,7 @@ type FuncContract struct {
 	Inline   []string
 	Havoc    []string
 	Assigns  []string
+	Shared   []string // `property A B`: the clauses of this contract, whatever property their label names, count for each listed property
 	Guards   [][]string // `guards p.mu p.f p.g`: the fields p.f, p.g are only stable while the lock p.mu is held (forgotten at every p.mu.Lock())
 	Rules    []string // effect rules that apply to this function
 	EffectCl []*EffectClause
@@ -142,6 +143,29 @@ func (fc *FuncContract) usesReturns() bool {
 		}
 	}
 	return false
+}
+
+// counts reports whether a clause with this label is judged when property prop is checked: unlabelled clauses and
+// clauses labelled for prop always are; a clause labelled for another property is when the contract declares (with
+// `property`) that it serves both.
+func (fc *FuncContract) counts(label, prop string) bool {
+	p := propOfLabel(label)
+	if p == "" || p == prop {
+		return true
+	}
+	if fc == nil {
+		return false
+	}
+	hasP, hasProp := false, false
+	for _, s := range fc.Shared {
+		if s == p {
+			hasP = true
+		}
+		if s == prop {
+			hasProp = true
+		}
+	}
+	return hasP && hasProp
 }
 
 func (fc *FuncContract) hasProp(id string) bool {
@@ -253,6 +277,7 @@ func parseContractText(text, path, pkgPath string) ([]*FuncContract, error) {
 			}
 		case word == "property":
 			cur.Props = append(cur.Props, strings.Fields(rest)...)
+			cur.Shared = append(cur.Shared, strings.Fields(rest)...)
 			last = nil
 		case word == "arith":
 			cur.Arith = rest
